@@ -1,6 +1,6 @@
 import CgtModel.Report
 import CgtModel.Props.C07
-import CgtModel.Props.C12
+import CgtModel.Props.C12Core
 import CgtModel.Lemmas.SpecPerm
 import CgtModel.Lemmas.YearSlice
 /-! # C16 — output is deterministic and canonically ordered
